@@ -96,16 +96,17 @@ Definition bpos (text : str) (i : nat) : nat := length (utf8 (firstn i text)).
 
 (* ---- re-match and token construction ---- *)
 Section Rematch.
-  (* extractor.compiled_regex.match(text, s, e) (as repaired: matched in place, so that anchors and
-     boundaries see the real context): absolute span of group 1, or None *)
-  Variable rematch : nat -> str -> nat -> nat -> option (nat * nat).
+  (* extractor.compiled_regex.match(text, s) (as repaired: matched in place from the start of the hit, so
+     that anchors and boundaries see the real context, and NOT cut at the end Hyperscan reported, where
+     `$` would match artificially): absolute span of group 1, or None *)
+  Variable rematch : nat -> str -> nat -> option (nat * nat).
 
   Record htok := { h_idx : nat; h_start : nat; h_end : nat; h_data : str }.
 
   Definition extract (text : str) (hits : list hit) : list htok :=
     flat_map (fun x =>
                 let '(idx, (s, e)) := x in
-                match rematch idx text s e with
+                match rematch idx text s with
                 | Some (a, b) => [{| h_idx := idx; h_start := a; h_end := b; h_data := slice text a b |}]
                 | None => []          (* as repaired: a hit Python's pattern rejects is skipped *)
                 end) (translate text hits).
